@@ -371,4 +371,22 @@ theorem assemble_eq (zero : V) (chunk ncols : Nat) (kept : List (Nat × Int × V
   rw [hcv, hsort]
   simp only [List.map_map]
 
+/-- the rows the reader produces: bucket by row, each bucket through `sort_row` -/
+def rowsOfN (narrow : Int → Int) (kept : List (Nat × Int × V)) (chunk : Nat) : List (List (Int × V)) :=
+  ((List.range chunk).map (bucket kept)).map (sortRowN narrow)
+def rowsOf (kept : List (Nat × Int × V)) (chunk : Nat) : List (List (Int × V)) := rowsOfN wrap32 kept chunk
+
+theorem rowsOf_lengths (narrow : Int → Int) (kept : List (Nat × Int × V)) (chunk : Nat) :
+    (((List.range chunk).map (bucket kept)).map (sortRowN narrow)).map List.length
+      = (List.range chunk).map (cntRow kept) := by
+  rw [List.map_map, List.map_map]; apply List.map_congr_left; intro r _
+  simp only [Function.comp, sortRowN_length, bucket_length]
+
+theorem assemble_eq_ofRows (zero : V) (chunk ncols : Nat) (kept : List (Nat × Int × V))
+    (hk : ∀ e ∈ kept, e.1 < chunk) :
+    assemble zero chunk ncols kept = .ok (RawCRS.ofRows chunk ncols (rowsOf kept chunk)) := by
+  rw [assemble_eq zero chunk ncols kept hk]
+  unfold RawCRS.ofRows rowsOf rowsOfN
+  rw [rowsOf_lengths, ptrFrom_eq_offsList]
+
 end Amgcl.IO
